@@ -167,6 +167,10 @@ pub fn run(ctx: &Ctx) {
     }
     ctx.set("evaluations", json!(total_evals));
     ctx.set("distinct_nontrivial", json!(all_distinct.len()));
+    // named trees and wide families before the (long) searches: a wall budget that runs out cuts the deepest
+    // level of a search, not these parts
+    names_part(ctx);
+    families(ctx);
     let searches: Vec<(usize, usize)> = ctx.tier.pick(vec![(2, 3)], vec![(2, 5), (3, 2)]);
     for (aw, depth) in searches {
         let alphabet = materialise(order_cfg(aw));
@@ -191,8 +195,6 @@ pub fn run(ctx: &Ctx) {
         let stats = search.run();
         record_bfs(ctx, &format!("extend over order-sensitive documents of weight <= {}", aw), &stats, events.len(), depth);
     }
-    names_part(ctx);
-    families(ctx);
     ctx.set(
         "rule",
         json!("order-sensitive document space (attributes: every duplicate-free sequence over {y,x,z}; children over {b,a,c}, alphabets deliberately not in alphabetical order). (a) every single document; (b) breadth-first search over extend_struct. For every history both sort options are rendered: unsorted must list attributes, text, children in first-appearance order of the DOM reference, sort-by-name in ascending XML name; struct definitions in pre-order of that field order; the two renderings must contain the same structs and fields. (c) small trees over 2-subsets of a pool with prefixed, case-variant, keyword and non-ASCII names (sorting is by the full XML name), as one document and split into two. (d) wide elements (9..14 children / attributes named c1..cn in ascending, descending and rotated order) and every history r(a,b,c,d) ++ r(s1) ++ r(s2) with s1, s2 duplicate-free sequences over four names. distinct_nontrivial = distinct reference schemas with a position holding >= 2 attributes or >= 2 children"),
